@@ -4,6 +4,7 @@ import (
 	"bytes"
 	"context"
 	"fmt"
+	"os"
 
 	"github.com/cloudwego/dynamicgo/conv"
 	"github.com/cloudwego/dynamicgo/conv/j2t"
@@ -80,6 +81,10 @@ func runC02(w *W) {
 	// api.js_conv fields: under EnableValueMapping the native parser hands the member's text back to Go in the
 	// middle of the document and is re-entered afterwards
 	so.JSConv, so.JSConvScalars = t.Chance(1, 4, "sch.jsconv"), true
+	if t.Chance(1, 25, "sch.numbered") {
+		so.NumberedFields = pickInt(t, "sch.numbered.n", 333, 120, 200, 500, 700)
+		w.Count("worlds_with_numbered_fields")
+	}
 	w.World.GuardGrowth = !so.NoBinary
 	// deep worlds: long chains of nested structs with wide requires-bitmaps over a small bitmap arena, so
 	// that one conversion outgrows the arena several times while outer levels are still open
@@ -264,6 +269,26 @@ func runC02(w *W) {
 			}
 		}
 	}
+	// an empty input (no body at all) with a request base in the context: the base is still delivered, in a well-formed
+	// struct
+	if reqBase != nil && t.Chance(1, 2, "emptybody.use") {
+		var src []byte
+		if t.Chance(1, 2, "emptybody.nil") {
+			src = []byte{}
+		}
+		env := drawJ2TEnvAt(w, append(append([]byte{}, baseBytes...), 0), 0, nil)
+		w.NextOp(fmt.Sprintf("j2t empty input (nil=%v) with a request base, env %s", src == nil, env))
+		r := runJ2T(w, &cv, desc, src, env, ctx)
+		if r.Err == nil {
+			if !bytes.HasPrefix(r.Out, baseBytes) {
+				w.Failf("empty-input-base-lost", r.Facts, "empty input, EnableThriftBase and a base in the context: the output %x does not start with the base %x (env %s)", clipb(r.Out, 200), clipb(baseBytes, 200), env)
+			}
+			if n, err := skipThrift(r.Out, tSTRUCT, 0); err != nil || n != len(r.Out) {
+				w.Failf("empty-input-not-wellformed", r.Facts, "empty input: the output %x is not one well-formed struct (%v, %d of %d bytes)", clipb(r.Out, 200), err, n, len(r.Out))
+			}
+		}
+		w.Count("empty_input_with_base")
+	}
 	// root-level scalar documents: the descriptor is a scalar type and the document is the value itself, possibly
 	// followed by insignificant whitespace
 	nroot := 0
@@ -340,15 +365,17 @@ func literalNearEnd(js []byte) bool {
 	return false
 }
 
+var noClip = os.Getenv("VERIF_NOCLIP") != ""
+
 func clip(b []byte, n int) string {
-	if len(b) > n {
+	if len(b) > n && !noClip {
 		return string(b[:n]) + fmt.Sprintf("...(+%d)", len(b)-n)
 	}
 	return string(b)
 }
 
 func clipb(b []byte, n int) []byte {
-	if len(b) > n {
+	if len(b) > n && !noClip {
 		return b[:n]
 	}
 	return b
